@@ -63,6 +63,10 @@ CLAIMED["C07"] = ("mirsym panic census over every panic!/unreachable!/assert! si
     "bounded symbolic model checking of the named panic mechanisms (NOT whole-program totality): parse errors always surface as Err; no node kind of the feature set falls into a wildcard/unreachable arm except under the listed caller/parser preconditions (each listed with the node kinds allowed to reach it); Shape arithmetic cannot overflow for indent_width <= 2^16, nesting < 2^32, offsets < 2^48 and any column_width; argument trial formatting happens only without simple_heuristics and always sets it; --verify number normalisation neither panics nor slices out of bounds for any number token of <= 24 characters of any syntax",
     "trusts rustc's MIR printer (and its removal of exhaustive wildcard arms), mirsym, z3 (incl. its sequence solver), the number-language transcriptions in vcheck/numstr.py; stack depth, wall time, unwrap() on callee results and string-width arithmetic are outside", "5/C07")
 
+CLAIMED["C10"] = ("mirsym over the whitespace sources (line_ending_character, create_newline_trivia, create_*indent_trivia, format_token's comment and long-string arms, load_token_trivia, format_eof, pop_until_no_whitespace) with bounded symbolic strings (vcheck/bstr.py: N code-point terms + length, literal replace / trim as quantifier-free terms, DFA runs for line-break languages); z3; whitespace-site census over the whole library MIR; model-derived Lua replay",
+    "bounded symbolic model checking of the whitespace sources: newline trivia is exactly the configured line ending; indent trivia is tabs(level) or spaces(level*indent_width); for EVERY comment / shebang / long-string text of <= 6 (thorough 8) characters written with LF or CRLF the emitted text has no trailing white space resp. only configured line breaks and is otherwise unchanged; input whitespace trivia is never copied; EOF handling pops trailing whitespace and appends one newline; no other place of the crate builds whitespace tokens, tabs, or spaces(n>1)",
+    "trusts rustc's MIR printer, mirsym, z3, full_moon's spaces()/tabs(); that every layout path places indent trivia after each newline is NOT decided (only the sources are)", "5/C10")
+
 CLAIMED["C15"] = ("mirsym over find_config_file (recursion inlined) / lookup_config_file_in_directory / find_toml_file / load_configuration(_for_stdin) with the file system abstracted to a symbolic directory chain and a map-summarised cache, two successive lookups; z3 against the documented precedence; directory-tree replay",
     "bounded symbolic model checking of the precedence kernels: for every existence pattern of stylua.toml/.stylua.toml on a chain of 4 directories, every cwd position or parent search: the nearest file up to the root (or XDG/HOME) is chosen, a cached second lookup (same directory or its parent) agrees; forced > found > editorconfig (unless disabled) > defaults",
     "trusts rustc's MIR printer, mirsym + Path/HashMap summaries, z3; toml decoding, ec4rs discovery and the XDG/HOME probing order are outside", "5/C15-C20")
